@@ -11,7 +11,7 @@ def rand_scenario(rng):
         q = {"name": rng.choice([0, 0, 0, 1, 2, 3, 4]), "qtype": rng.choice([1, 1, 1, 28, 15]),
              "do": rng.random() < 0.25, "cd": rng.random() < 0.25, "ad": rng.random() < 0.2}
         if r < 0.3:
-            steps.append(dict(q, op="ins", vec=rng.randrange(nvec)))
+            steps.append(dict(q, op="ins", vec=rng.randrange(nvec), rcode=rng.choice([0, 0, 0, 2, 3, 5])))
         elif r < 0.7:
             steps.append(dict(q, op="get"))
         elif r < 0.95:
@@ -25,8 +25,9 @@ def directed():
     out = []
     q = {"name": 0, "qtype": 1, "do": False, "cd": False}
     # every vector: lookups at minTTL-1s, minTTL-1ms, minTTL, minTTL+1ms, minTTL+1s, with near-miss keys in between
-    for vec, mn in ((0, 1), (1, 1), (2, 2), (3, 0), (4, 2), (7, 60), (8, 30), (11, 10), (5, None), (6, 5), (9, None), (10, 0)):
-        steps = [dict(q, op="ins", vec=vec), dict(q, op="get")]
+    for vec, mn, rcode in [(v, m, 0) for v, m in ((0, 1), (1, 1), (2, 2), (3, 0), (4, 2), (7, 60), (8, 30), (11, 10), (5, None), (6, 5), (9, None), (10, 0))] + \
+                          [(0, 1, 2), (2, 2, 2), (6, 5, 2), (0, 1, 3), (6, 5, 5), (11, 10, 2)]:
+        steps = [dict(q, op="ins", vec=vec, rcode=rcode), dict(q, op="get")]
         for nm in (dict(q, name=1), dict(q, qtype=28), dict(q, do=True), dict(q, cd=True), dict(q, name=2), dict(q, ad=True)):
             steps.append(dict(nm, op="get"))
         if mn:
